@@ -749,4 +749,82 @@ example :
     g.items.map (fun it => hostBudget it.size (quotaOf g it)) = [1, 3, 5] ∧ hostBudget 4 4 = 8 := by decide
 
 
+/-! ## which meta a partition is sampled with; fair keys below the metric level -/
+
+/-- rows accounted to one metric agree on the sampling options (they all resolve to that metric's meta) -/
+def MetaConsistent (l : List Item) : Prop :=
+  ∀ a ∈ l, ∀ b ∈ l, a.metric = b.metric →
+    a.wMetric = b.wMetric ∧ a.noSample = b.noSample ∧ a.ns = b.ns ∧ a.grp = b.grp
+
+/-- resolve_uses_accounting_metric: a row keeps the accounting metric's options unless the meta it carries is the meta
+    of that very metric; in particular a row of another metric (carried id ≠ accounting id: an ingestion status
+    accounted to a user metric) never brings its own namespace, group, weight or fair keys into the partitioning. -/
+theorem resolve_uses_accounting_metric (it : Item) (c : Carried) :
+    (resolveMeta it (some c)).metric = it.metric ∧ (c.metricID ≠ it.metric → resolveMeta it (some c) = it) ∧
+    (c.metricID = it.metric → (resolveMeta it (some c)).wMetric = c.wMetric ∧ (resolveMeta it (some c)).ns = c.ns ∧
+      (resolveMeta it (some c)).grp = c.grp ∧ (resolveMeta it (some c)).noSample = c.noSample) := by
+  refine ⟨?_, ?_, ?_⟩
+  · simp only [resolveMeta]; split <;> rfl
+  · intro h; simp [resolveMeta, h]
+  · intro h; simp [resolveMeta, h]
+
+/-- metric_partition_uses_accounting_meta: a metric partition is weighted, grouped and flagged with the options of the
+    metric its rows are accounted to, whichever row sorts first in it (the code reads them from the first row). -/
+theorem metric_partition_uses_accounting_meta (d : Nat) (l : List Item) (hc : MetaConsistent l) :
+    ∀ r ∈ runs (·.metric) l, ∀ it ∈ r,
+      (mkMetric d r).weight = it.wMetric ∧ (mkMetric d r).noSample = it.noSample ∧ (mkMetric d r).ns = it.ns ∧
+      (mkMetric d r).grp = it.grp := by
+  intro r hr it hit
+  have hne : r ≠ [] := runs_ne_nil _ _ r hr
+  have hh := hd_mem r hne
+  have hm : it.metric = (hd r).metric := runs_key_const (·.metric) l r hr it hit
+  have := hc (hd r) (mem_of_mem_runs _ _ _ hr _ hh) it (mem_of_mem_runs _ _ _ hr _ hit) hm.symm
+  simp only [mkMetric]
+  exact ⟨this.1, this.2.1, this.2.2.1, this.2.2.2⟩
+
+/-- non-vacuity: a status row of metric 9001 (weight 640, namespace 998) accounted to metric 1 (weight 2): it is
+    sampled with weight 2 in namespace 7, whether or not it sorts first -/
+example :
+    let c : Carried := { metricID := 9001, ns := 998, grp := 997, wNsTab := 0, wGrpTab := 0, wMetric := 640, noSample := false, fki := [0] }
+    let it : Item := { id := 0, size := 10, metric := 1, ns := 7, wMetric := 2 }
+    resolveMeta it (some c) = it ∧ (resolveMeta it (some { c with metricID := 1 })).wMetric = 640 := by decide
+
+theorem sumWeights_mkKey (d : Nat) (rs : List (List Item)) : sumWeights (rs.map (mkKey d)) = rs.length := by
+  induction rs with
+  | nil => rfl
+  | cons r rs ih =>
+    simp only [sumWeights, List.map_cons, List.sum_cons, List.length_cons] at *
+    rw [ih]; simp [mkKey]; omega
+
+/-- fair_key_within_share_kept: below the metric level the partitions are the values of the next fair key, all of weight 1:
+    a fair-key value whose size does not exceed the metric's (or parent fair-key value's) budget divided by the number of
+    values is kept entirely with factor 1 — however large its sibling values are. Every tie order, draw stream, both variants. -/
+theorem fair_key_within_share_kept (cfg : Cfg) (fuel : Nat) (g : Group) (ds : List Nat)
+    (hk : kindAt cfg g.depth = .byKey)
+    (hw : ∀ it ∈ g.items, 0 < it.wMetric) (hs : ∀ it ∈ g.items, 0 ≤ it.size)
+    (p : Group) (hp : p ∈ partition cfg g) (hfit : p.sumSize * (partition cfg g).length ≤ g.budget) :
+    ∀ it ∈ p.items, keepEv it ∈ evs (run (fuel + 1) cfg g ds).1 := by
+  have hkb : kindAt cfg g.depth ≠ .byBudget := by rw [hk]; simp
+  have hpl := partition_plain cfg g .byKey hk (by simp)
+  have hpw : p.weight = 1 := by
+    rw [hpl.1] at hp
+    simp only [partPlain, List.mem_map] at hp
+    obtain ⟨r, _, rfl⟩ := hp; rfl
+  have hW : partWeight cfg g = (partition cfg g).length := by
+    rw [hpl.2, hpl.1]
+    simp only [partPlain, List.length_map]
+    exact sumWeights_mkKey _ _
+  refine fits_share_kept cfg fuel g ds hkb hw hs p hp ?_
+  rw [hW, hpw]; omega
+
+/-- non-vacuity: metric with fair key = tag 0, budget 30: value 7 (one row of 10 bytes, share 15) is kept whole, the
+    flooding value 0 (4 rows) is sampled -/
+example :
+    let cfg : Cfg := { sKeys := true }
+    let mk (i : Nat) (t : Int) : Item := { id := i, size := 10, metric := 1, fki := [0], tags := [t], rank := i }
+    let items : List Item := [mk 0 0, mk 1 0, mk 2 0, mk 3 0, mk 4 7]
+    keepEv (prep cfg (mk 4 7)) ∈ evs (runBucket cfg items 30 [0, 0, 0, 0, 0, 0]) ∧
+    (evs (runBucket cfg items 30 (List.replicate 6 9007199254740991))).any (fun e => !e.kept) = true := by decide
+
+
 end SH.Sampler
